@@ -106,18 +106,27 @@ func KitEncrypt(src *Source, opts v1.EncryptOptions) (io.Reader, error) {
 type Dev uint8
 
 const (
-	DevNone Dev = iota
-	DevZero     // source: 0 bytes with a nil error
-	DevOne      // source: 1 byte
-	DevNm1      // source: one byte less than could be delivered
-	DevSeg      // source: stop exactly at the next segment (or header) boundary
-	DevEOF      // source: the final bytes together with io.EOF
-	DevBuf1     // consumer: a 1-byte buffer
-	DevBuf7     // consumer: a 7-byte buffer
+	DevNone  Dev = iota
+	DevZero      // source: 0 bytes with a nil error
+	DevOne       // source: 1 byte
+	DevNm1       // source: one byte less than could be delivered
+	DevSeg       // source: stop exactly at the next segment (or header) boundary
+	DevEOF       // source: the final bytes together with io.EOF
+	DevBuf1      // consumer: a 1-byte buffer
+	DevBuf7      // consumer: a 7-byte buffer
+	DevHdrM1     // source: this Read ends exactly one byte before the end of the header
+	DevHdr0      // source: ... exactly at the end of the header
+	DevHdrP1     // source: ... one byte after the end of the header
+	DevHdrP2     // source: ... two bytes after
+	DevHdrP3     // source: ... three bytes after
 	numDevs
 )
 
-var devNames = [...]string{"default", "zero", "one", "n-1", "segment-boundary", "data+EOF", "buf1", "buf7"}
+var devNames = [...]string{"default", "zero", "one", "n-1", "segment-boundary", "data+EOF", "buf1", "buf7",
+	"header-end-1", "header-end", "header-end+1", "header-end+2", "header-end+3"}
+
+// Mask is a set of deviations (bit d = deviation d).
+type Mask = uint16
 
 func (d Dev) String() string { return devNames[d] }
 
@@ -142,9 +151,10 @@ type Source struct {
 	Chunk   int         // uniform policy: at most this many bytes per Read (0 = fill)
 	SegBase int         // boundaries are SegBase + k*SegSize, k >= 0
 	SegSize int         // 0 = no boundaries
+	HdrEnd  int         // offset of the first payload byte (0 = the data has no header)
 	Script  map[int]Dev // call index -> deviation
 	Record  bool        // record Masks
-	Masks   []uint8     // per call: bit d set when deviation d would differ from the default
+	Masks   []Mask      // per call: bit d set when deviation d would differ from the default
 	FailAt  int         // call index at which the sticky fault starts (-1 = never)
 	FailDat bool        // the failing call also delivers its data
 	Calls   int
@@ -213,8 +223,27 @@ func (s *Source) Read(p []byte) (int, error) {
 	if b := s.nextBoundary(); b > s.pos && b-s.pos < n {
 		seg = b - s.pos
 	}
+	// cuts[k+1] > 0: ending this Read at header end + k delivers that many
+	// bytes, fewer than the default and different from the other deviations
+	var cuts [5]int
+	if s.HdrEnd > 0 {
+		for k := -1; k <= 3; k++ {
+			cut := s.HdrEnd + k - s.pos
+			if cut > 0 && cut < n && cut != 1 && cut != n-1 && (cut != seg || k == 0) {
+				cuts[k+1] = cut
+			}
+		}
+		if cuts[1] > 0 && cuts[1] == seg {
+			seg = -1 // the header end is reported as header-end, not as segment-boundary
+		}
+	}
 	if s.Record {
-		var m uint8 = 1 << DevZero
+		var m Mask = 1 << DevZero
+		for k, cut := range cuts {
+			if cut > 0 {
+				m |= 1 << (DevHdrM1 + Dev(k))
+			}
+		}
 		if rem > 0 {
 			if n > 1 {
 				m |= 1 << DevOne
@@ -251,6 +280,10 @@ func (s *Source) Read(p []byte) (int, error) {
 		if rem > 0 && n == rem {
 			err = io.EOF
 		}
+	case DevHdrM1, DevHdr0, DevHdrP1, DevHdrP2, DevHdrP3:
+		if cut := cuts[s.Script[idx]-DevHdrM1]; cut > 0 {
+			n = cut
+		}
 	}
 	if rem == 0 {
 		return 0, io.EOF
@@ -268,7 +301,7 @@ type Consumer struct {
 	Buf    int         // uniform policy: buffer size (0 = big buffer)
 	Script map[int]Dev // call index -> DevBuf1 / DevBuf7
 	Record bool
-	Masks  []uint8
+	Masks  []Mask
 	Calls  int
 }
 
@@ -303,7 +336,7 @@ func (c *Consumer) ReadAll(r io.Reader, sizeHint int) ([]byte, error) {
 		n, err := r.Read(buf[:size])
 		out = append(out, buf[:n]...)
 		if c.Record {
-			var m uint8
+			var m Mask
 			if dev == DevNone {
 				if n > 1 {
 					m |= 1 << DevBuf1
@@ -363,7 +396,7 @@ func ScriptFor(ps []Placement, env int) map[int]Dev {
 // function of the answers given (one producer, one consumer per pipe), adding
 // a placement never changes anything before it, so every set of placements is
 // generated exactly once.
-func Successors(ps []Placement, masks [][]uint8) []Placement {
+func Successors(ps []Placement, masks [][]Mask) []Placement {
 	le, li := 0, -1
 	if len(ps) > 0 {
 		le, li = ps[len(ps)-1].Env, ps[len(ps)-1].Idx
